@@ -469,6 +469,38 @@ def _s2(program, res):
     res.expect_count("C14-S2", "ops values passed to builder calls inside the generator", n, 2)
 
 
+def _s2c_literal_numbers_exact(program, res):
+    """the literal printer of solutions.py turns values it does not know into Python numbers before printing: `float(v)` of an integer-kind numpy
+    number prints `7.0` for 7 and loses the last digits beyond 2**53 — the constant in the generated expression is then another value (and another
+    column type) than the caller's.  A float() conversion has to come after the integer / boolean kinds were taken out"""
+    mod = program.module("solutions")
+    f = mod.functions.get("_literal_text")
+    if f is None:
+        res.abstain("C14-S2b", "solutions._literal_text", "no literal printer of that name")
+        return
+    res.analysed(f)
+    ps = f.params()
+    conv = [c for c in ast.walk(f.node) if isinstance(c, ast.Call) and isinstance(c.func, ast.Name) and c.func.id == "float" and c.args
+            and isinstance(c.args[0], ast.Name) and ps and c.args[0].id == ps[0]]
+    if not conv:
+        res.ok("C14-S2b", "_literal_text: no float() conversion of the value", nontrivial=False)
+        return
+    for c in conv:
+        earlier = []
+        for st in f.node.body:
+            if any(x is c for x in ast.walk(st)):
+                break
+            earlier.append(st)
+        exact = [st for st in earlier if isinstance(st, ast.If) and any(k in unparse(st.test) for k in ("Integral", ".kind", "numpy.integer", "numpy.generic"))
+                 and any(isinstance(a_, ast.Assign) and unparse(a_.targets[0]) == ps[0] and (".item()" in unparse(a_.value) or "int(" in unparse(a_.value)) for a_ in ast.walk(st))]
+        if exact:
+            res.ok("C14-S2b", "_literal_text: integer and boolean kinds become Python numbers of the same kind before anything is turned into a float")
+        else:
+            res.fail_at("C14-S2b", f, "literal-number-through-float:_literal_text",
+                        f"`{unparse(c)}` converts every value that is not a built-in: numpy.int64(7) — what `df[col].max()` hands over — is printed as 7.0, "
+                        f"2**53 + 1 loses its last digit, numpy.bool_ becomes 1.0, and the looked-up column comes back as float", c)
+
+
 def _s2b_quoted_interpolation(program, res):
     """the library's own pipeline builders (solutions.py) write expressions as text.  A value of the caller pasted between quote characters into that
     text (`f'(c == "{mark}")'`) is expression *source*: a quote or a backslash in the value changes the expression.  Constants go in through the
@@ -796,6 +828,7 @@ def run(program, res, tier):
     res.rule("C14-S1", "every leaf of every SQL text sink is constant, configuration, numeric, sanitised or generated")
     res.rule("C14-S2", "no expression source text built from user strings inside the generator")
     _s2b_quoted_interpolation(program, res)
+    _s2c_literal_numbers_exact(program, res)
     res.rule("C14-S3", "comment text is constant, configuration or cleaned of line breaks")
     res.rule("C14-S4", "quote_string / quote_identifier cover the dialect's special characters")
     res.rule("C14-S5", "no string-inspecting rewrite of assembled SQL")
